@@ -28,6 +28,32 @@ def logical_parity(lab, c, level):
     return out
 
 
+def deleted_continuity(c0, c1):
+    """transition oracle on the recorded state: the hash kept for a DELETED position (the only description left of what the
+    parity still contains there) is either the hash recorded at that very (disk, position) before the command - whatever
+    its state was - or the INVALID marker.  Returns violation dicts."""
+    v = []
+    inv = None
+    for name, d1 in c1.disks.items():
+        if not d1.deleted:
+            continue
+        d0 = c0.disks.get(name)
+        prev = {}
+        if d0 is not None:
+            prev.update(d0.deleted)
+            for f in d0.files:
+                for st, pos, h in f.blocks:
+                    prev[pos] = h
+        for pos, h in d1.deleted.items():
+            if h == b"\0" * len(h):
+                continue
+            if pos not in prev:
+                v.append(dict(kind="deleted-block-on-a-position-never-recorded", disk=name.decode(), pos=pos))
+            elif prev[pos] != h:
+                v.append(dict(kind="deleted-hash-not-inherited", disk=name.decode(), pos=pos, recorded=h.hex(), before=prev[pos].hex()))
+    return v
+
+
 def find_version(lab, c, disk, f, only_hash_of_block=None):
     """bytes of the version of file f (content record) that was synced, or None.
     Candidates come from the version store by identity; the recorded BLK/REP hashes pick among them."""
